@@ -880,7 +880,7 @@ class Task:
             if self in v.__successors:
                 v.__successors.remove(self)
 
-        self.__predecessors = [v for v in value]
+        self.__predecessors[:] = [v for v in value]
 
         for v in value:
             if self not in v.__successors:
@@ -931,7 +931,7 @@ class Task:
             if self in v.__predecessors:
                 v.__predecessors.remove(self)
 
-        self.__successors = [v for v in value]
+        self.__successors[:] = [v for v in value]
 
         for v in value:
             if self not in v.__predecessors:
